@@ -262,7 +262,7 @@ def rrPick (w : World) : Option Nat :=
   let start := (w.lastUsed + 1).toNat
   match firstActive w (List.range' start (w.nhosts - start)) with
   | some j => some j
-  | none => firstActive w (List.range (w.lastUsed + 1).toNat)
+  | none => firstActive w (List.range (min (w.lastUsed + 1).toNat w.nhosts))   -- (k < ext_used)
 
 def djb (bs : Bytes) (h : UInt32) : UInt32 :=
   bs.foldl (fun h c => ((h <<< 5) + h) ^^^ c.toUInt32) h
@@ -744,19 +744,22 @@ def hostName (i : Nat) (kind : Char) : Bytes :=
 def hostHash (i : Nat) (kind : Char) : UInt32 :=
   djb (hostName i kind) 5381 ^^^ (if kind = 'u' then 0 else (9000 + i).toUInt32)
 
+def specHost (i : Nat) (sp : Option HostSpec) : Host :=
+  match sp with
+  | some sp => { nprocs := sp.nprocs, active := sp.nprocs, gwHash := hostHash i sp.kind,
+                 disableTime := sp.disableTime, ctimeout := sp.ctimeout, rtimeout := sp.rtimeout,
+                 wtimeout := sp.wtimeout, unix := sp.kind = 'u' }
+  | none => {}
+
+def specProc (i j : Nat) (sp : Option HostSpec) : Proc :=
+  match sp with
+  | some sp => { isLocal := sp.kind = 'l', pid := if sp.kind = 'l' then 5000 + 10 * i + j else 0 }
+  | none => {}
+
 def initWorld (balance : Nat) (wkr : Bool) (nslots : Nat) (specs : List HostSpec) : World :=
   { balance := balance, wkr := wkr, nslots := nslots, nhosts := specs.length,
-    host := fun i =>
-      match specs[i]? with
-      | some sp => { nprocs := sp.nprocs, active := sp.nprocs, gwHash := hostHash i sp.kind,
-                     disableTime := sp.disableTime, ctimeout := sp.ctimeout, rtimeout := sp.rtimeout,
-                     wtimeout := sp.wtimeout, unix := sp.kind = 'u' }
-      | none => {},
-    proc := fun i j =>
-      match specs[i]? with
-      | some sp => { isLocal := sp.kind = 'l', pid := if sp.kind = 'l' then 5000 + 10 * i + j else 0 }
-      | none => {} }
-
+    host := fun i => specHost i specs[i]?,
+    proc := fun i j => specProc i j specs[i]? }
 
 /-! ### specification vocabulary: what "equals the number of requests in flight" means -/
 
